@@ -28,7 +28,7 @@ def float(x):  # noqa: A001 — overflow-safe: a huge exact rational becomes ±i
 ID = "C01"
 LEAN_TARGETS = ["Strengths.Props.C01", "Strengths.Props.C01Dxdtf", "Strengths.Props.C01Total", "Strengths.Props.C01Marshal", "Strengths.Props.C01Units", "Strengths.Props.C01Build"]
 PROP_FILES = ["Strengths/Props/C01.lean", "Strengths/Props/C01Dxdtf.lean", "Strengths/Props/C01Total.lean", "Strengths/Props/C01Marshal.lean", "Strengths/Props/C01Units.lean", "Strengths/Props/C01Build.lean"]
-GEN_GROUPS = ["Units", "IndexPy", "EngineCpp", "KineticsPy"]
+GEN_GROUPS = ["Units", "IndexPy", "EngineCpp", "KineticsPy", "Network"]
 RULE = ("random reaction networks (1-3 species, 0-3 reactions, orders 0-4 per side incl. empty sides and repeated species, "
         "scalar / per-environment k, D, density with and without 'default', zeros) on grids (w,h,d with all mixes of "
         "reflecting/periodic axes, periodic axes of length 1 and 2 included, random environment maps) and graphs "
